@@ -88,6 +88,8 @@ structure Config where
   byAddr : Bool             -- NAT relay (key = client address) vs session relay (key = csid)
   carriesSource : Bool      -- the server packer attaches the payload source (none, socks5, ss2022); `false` for the direct tunnel
   insertFirst : Bool        -- table insert BEFORE the first successful unpack (the code: `false`)
+  upstream : Option (IP × Nat) -- `some proxy`: the client protocol sends everything to an upstream proxy (none, socks5,
+                            -- ss2022; the address is fixed per session by NewSession) with the target inside; `none`: direct
   packerOf : Nat → Nat      -- client packer instance used by session incarnation `sid`
 
 structure State where
@@ -190,6 +192,11 @@ def take (cfg : Config) (st : State) (sid : Nat) : State :=
       match s.queue with
       | [] => st
       | q :: rest =>
+        match cfg.upstream with
+        | some (a, p) =>
+          -- ShadowsocksNone / Socks5 / ShadowPacket client packers: the packet (target inside) goes to the proxy
+          { setSess st sid { s with queue := rest } with sent := st.sent ++ [⟨sid, q, a, p⟩] }
+        | none =>
         match q.target with
         | .ip a p =>
           { setSess st sid { s with queue := rest } with sent := st.sent ++ [⟨sid, q, a, p⟩] }
@@ -265,13 +272,19 @@ def lastAddr (log : List (Nat × Addr × Pkt)) (sid : Nat) : Option Addr :=
   log.foldl (fun acc e => if e.1 = sid then some e.2.1 else acc) none
 
 /-- is the destination of a sent datagram the one its packet named? -/
-def destOK (answers : List (Dom × IP)) (w : Sent) : Prop :=
-  match w.pkt.target with
-  | .ip a p => w.ip = a ∧ w.port = p
-  | .dom d p => (d, w.ip) ∈ answers ∧ w.port = p
+def destOK (upstream : Option (IP × Nat)) (answers : List (Dom × IP)) (w : Sent) : Prop :=
+  match upstream with
+  | some (a, p) => w.ip = a ∧ w.port = p      -- to the upstream proxy, with `w.pkt` (target + payload) inside
+  | none =>
+    match w.pkt.target with
+    | .ip a p => w.ip = a ∧ w.port = p
+    | .dom d p => (d, w.ip) ∈ answers ∧ w.port = p
 
-instance (answers : List (Dom × IP)) (w : Sent) : Decidable (destOK answers w) := by
-  unfold destOK; cases w.pkt.target <;> exact inferInstance
+instance (upstream : Option (IP × Nat)) (answers : List (Dom × IP)) (w : Sent) : Decidable (destOK upstream answers w) := by
+  unfold destOK
+  cases upstream with
+  | some ap => exact inferInstance
+  | none => cases w.pkt.target <;> exact inferInstance
 
 /-! ### What the source says now (regenerated facts, `SSV.Gen.C11`) -/
 
@@ -302,9 +315,9 @@ def codeCleanupOK : Bool :=
   SSV.Gen.C11.cleanupProgs.all (fun p => underMutex ["close", "delete"] p.2 && p.2.contains "close" && p.2.contains "delete")
 
 /-- the configuration the current source implements (protocol parameters stay free) -/
-def codeConfig (cap : Nat) (byAddr carriesSource : Bool) : Config :=
+def codeConfig (cap : Nat) (byAddr carriesSource : Bool) (upstream : Option (IP × Nat) := none) : Config :=
   { cap := cap, byAddr := byAddr, carriesSource := carriesSource,
-    insertFirst := !codeRecvOK,
+    insertFirst := !codeRecvOK, upstream := upstream,
     packerOf := packerOfShared SSV.Gen.C11.packerShared }
 
 end SSV.Relay
